@@ -433,9 +433,13 @@ func (c *ctxConn) Read(b []byte) (n int, err error) {
 }
 
 func (c *ctxConn) Write(b []byte) (n int, err error) {
+	// written is the number of bytes of b that the connection has already taken.
+	// A write that times out may have been partially done, so the next attempt
+	// must resume after these bytes instead of sending them again.
+	written := 0
 	for {
 		if err = c.writeCtx.Err(); err != nil {
-			return 0, err
+			return written, err
 		}
 
 		deadline := time.Now().Add(c.writeTimeout)
@@ -449,15 +453,16 @@ func (c *ctxConn) Write(b []byte) (n int, err error) {
 			return 0, err
 		}
 
-		n, err = c.conn.Write(b)
+		n, err = c.conn.Write(b[written:])
+		written += n
 		if err != nil {
 			if netErr, ok := err.(net.Error); ok && netErr.Timeout() && netErr.Temporary() {
 				continue
 			}
-			return 0, err
+			return written, err
 		}
 
-		return n, nil
+		return written, nil
 	}
 }
 
